@@ -49,6 +49,11 @@ Init == regs = [r \in Regs |-> InitVal(r)] /\ pend = <<>> /\ ctr = 100 /\ hist =
 Write(r, t) == /\ pend' = Append(pend, [reg |-> r, tag |-> t, val |-> ctr])
                /\ ctr' = ctr + 1 /\ UNCHANGED regs
                /\ Log("Write", r, t, ctr, 0, {})
+(* a write of the value the register already has in the committed file (x := a; x := b; x := a is not a no-op) *)
+WriteBack(r, t) == /\ pend # <<>>
+                   /\ pend' = Append(pend, [reg |-> r, tag |-> t, val |-> regs[r]])
+                   /\ UNCHANGED <<ctr, regs>>
+                   /\ Log("Write", r, t, regs[r], 0, {})
 (* t = 0: a plain read sees the youngest uncommitted write; t > 0: only writes that are not younger *)
 Read(r, t) ==
   LET ws == IF t = 0 THEN Of(r) ELSE UpTo(r, t)
@@ -63,6 +68,7 @@ Rollback(s) == /\ regs' = [r \in Regs |-> IF Older(r, s) = <<>> THEN regs[r] ELS
 Pick(S) == IF Sample = 0 THEN S ELSE RandomSubset(IF Cardinality(S) < Sample THEN Cardinality(S) ELSE Sample, S)
 Next == /\ Len(hist) < K
         /\ \/ \E r \in Pick(Regs), t \in Pick(Tags) : Write(r, t)
+           \/ \E r \in Pick(Regs), t \in Pick(Tags) : WriteBack(r, t)
            \/ \E r \in Pick(Regs), t \in Pick(Tags \cup {0}) : Read(r, t)
            \/ Commit
            \/ \E s \in Pick(Tags) : Rollback(s)
